@@ -16,7 +16,7 @@ the same number must not add a handshake), an OUT token for EP1 with a handshake
 from amaranth import *
 from ..harness import Harness
 from ..engine import Query
-from ..lib.host import SlottedHost, TxSpy, KIND_NONE, KIND_SETUP, KIND_IN, KIND_OUT, KIND_SOF, KIND_HSK
+from ..lib.host import SlottedHost, TxSpy, slot_cubes, KIND_NONE, KIND_SETUP, KIND_IN, KIND_OUT, KIND_SOF, KIND_HSK
 from ..lib.device import tie_device, small_descriptors
 
 PROP = "C12"
@@ -28,7 +28,9 @@ ASSUMPTIONS = [
     "full speed over UTMI, tx_ready = 1, line idle, VBUS present; slotted host with fixed packet timing (32-cycle slots), "
     "host ACKs only data the device sent in that slot, no lone handshakes, no SET_ADDRESS (address stays 0)",
     "both devices get the same IN stream (always valid, symbolic constant byte, no `last`) and an always-ready OUT consumer",
-    "OUT payloads 0..2 bytes with symbolic DATA0/DATA1 PID and optional CRC corruption",
+    "OUT payloads of one byte (IN endpoint under test: zero-length) with DATA0/DATA1 PID and optional CRC corruption",
+    "the per-slot (kind, flag, DATA PID) choices are enumerated as separate solver queries (cubes); endpoint numbers 0..3, "
+    "addresses and data stay symbolic in every cube",
 ]
 BOUNDS = "BMC from reset over N = 3 (quick) / 4 (thorough) symbolic transactions, endpoint numbers 0..3, all addresses; " \
          "endpoint under test: IN EP1 and OUT EP1"
@@ -169,24 +171,36 @@ class IsoHarness(Harness):
 
 
 def queries(tier):
-    n = 3 if tier == "quick" else 4
-    K = 32 * n + 2
     qs = []
     for x in ("in", "out"):
-        f = (lambda x=x, n=n: IsoHarness(n, x))
+        f3 = (lambda x=x: IsoHarness(3, x))
+        f4 = (lambda x=x: IsoHarness(4, x))
         x_tok = KIND_IN if x == "in" else KIND_OUT
         hints = {
-            "x_after_other_traffic": {"s0_kind": KIND_IN, "s0_ep": 2, "s0_addr": 0, "s1_kind": x_tok, "s1_ep": 1, "s1_addr": 0,
-                                      "s1_flag": 0, "s1_dpid": 0},
-            "x_data_after_foreign_ack": {"s0_kind": KIND_IN, "s0_ep": 2, "s0_addr": 0, "s0_flag": 1, "s1_kind": x_tok,
-                                         "s1_ep": 1, "s1_addr": 0, "s1_flag": 0, "s1_dpid": 0},
-            "x_second_packet": {"s0_kind": x_tok, "s0_ep": 1, "s0_addr": 0, "s0_flag": 1 if x == "in" else 0, "s0_dpid": 0,
-                                "s1_kind": x_tok, "s1_ep": 1, "s1_addr": 0, "s1_flag": 0, "s1_dpid": 1},
-            "out_delivered": {"s0_kind": KIND_OUT, "s0_ep": 1, "s0_addr": 0, "s0_flag": 0, "s0_dpid": 0, "s0_olen": 1},
+            "x_after_other_traffic": {"s0_kind": KIND_IN, "s0_ep": 2, "s0_flag": 0, "s1_kind": x_tok, "s1_ep": 1},
+            "x_data_after_foreign_ack": {"s0_kind": KIND_IN, "s0_ep": 2, "s0_flag": 1, "s1_kind": x_tok, "s1_ep": 1},
+            "x_second_packet": {"s0_kind": x_tok, "s0_ep": 1, "s0_flag": 1 if x == "in" else 0, "s0_dpid": 0,
+                                "s1_kind": x_tok, "s1_ep": 1, "s1_dpid": 1},
+            "out_delivered": {"s0_kind": KIND_OUT, "s0_ep": 1, "s0_flag": 0, "s0_dpid": 0, "s0_olen": 1},
         }
+        for hd in hints.values():
+            for i in range(4):
+                hd.setdefault(f"s{i}_kind", KIND_NONE)
+                hd.setdefault(f"s{i}_flag", 0)
+                hd.setdefault(f"s{i}_addr", 0)
+                hd.setdefault(f"s{i}_ep", 0)
+                hd.setdefault(f"s{i}_olen", 0)
+                hd.setdefault(f"s{i}_dpid", 0)
         covers = ["x_after_other_traffic", "x_data_after_foreign_ack", "x_second_packet"] + (["out_delivered"] if x == "out" else [])
-        qs.append(Query(f"bmc_{x}_ep1_{n}slots", f, K, timeout=2400, hints=hints, covers=covers, split=False,
-                        desc=f"endpoint under test: {x.upper()} EP1; full device vs device with only that endpoint, {n} transactions"))
-        qs.append(Query(f"cosim_{x}", (lambda x=x: IsoHarness(3, x)), 0, kind="cosim",
-                        cosim_cycles=100 if tier == "quick" else 300))
+        qs.append(Query(f"covers_{x}_ep1", f3, 32 * 3 + 2, asserts=[], covers=covers, hints=hints, timeout=900, split=False,
+                        desc=f"witnesses, endpoint under test {x.upper()} EP1"))
+        # one solver process per cube of per-slot (kind, flag) choices; endpoint numbers, addresses, data, PIDs symbolic
+        if tier == "quick":
+            opts, first = ("IiQ", "Ii") if x == "in" else ("IQo", "Q")
+        else:
+            opts, first = "SIiQPoN", None
+        for name, layer in slot_cubes(3, opts, first=first, defaults=dict(olen=1) if x == "out" else dict(olen=0)):
+            qs.append(Query(f"bmc_{x}_ep1_{name}", f3, 32 * 3 + 2, layer=layer, covers=[], timeout=900, split=False,
+                            desc=f"endpoint under test {x.upper()} EP1, transactions {name}: full device vs device with only that endpoint"))
+        qs.append(Query(f"cosim_{x}", f3, 0, kind="cosim", cosim_cycles=100 if tier == "quick" else 300))
     return qs
